@@ -1,8 +1,10 @@
 // C15: run one named parser at a cursor; on success re-run it on the reported span alone.
 use parsley_rust::pcore::parsebuffer::{LocatedVal, ParseBuffer, ParseBufferT, ParseResult, ParsleyParser};
+use parsley_rust::pcore::prim_ascii::AsciiChar;
 use parsley_rust::pcore::prim_binary::*;
+use parsley_rust::pcore::prim_combinators::{Alt, Alternate, Not, Sequence, Star};
 use parsley_rust::pcore::transforms::{BufferTransformT, RestrictView};
-use parsley_rust::pdf_lib::pdf_obj::{parse_pdf_obj, PDFObjContext};
+use parsley_rust::pdf_lib::pdf_obj::{parse_pdf_obj, PDFObjContext, PDFObjT};
 use parsley_rust::pdf_lib::pdf_prim::*;
 use verif_harness::objfmt::obj_sexp;
 use verif_harness::*;
@@ -26,6 +28,177 @@ fn conv<T: PartialEq>(r: ParseResult<LocatedVal<T>>, pb: &ParseBuffer, f: &dyn F
             cursor: pb.get_cursor(),
         },
     }
+}
+
+// canonical text of a combinator value: the nested located values with their spans RELATIVE to the
+// start of the outer value (so a faithful re-parse of the span prints the same text)
+trait Rel {
+    fn rel(&self, base: usize) -> String;
+}
+impl Rel for char {
+    fn rel(&self, _: usize) -> String { (*self as u32).to_string() }
+}
+impl Rel for u8 {
+    fn rel(&self, _: usize) -> String { self.to_string() }
+}
+impl Rel for u16 {
+    fn rel(&self, _: usize) -> String { self.to_string() }
+}
+impl Rel for () {
+    fn rel(&self, _: usize) -> String { "u".to_string() }
+}
+impl Rel for IntegerT {
+    fn rel(&self, _: usize) -> String { self.int_val().to_string() }
+}
+impl<T: Rel + PartialEq> Rel for LocatedVal<T> {
+    fn rel(&self, base: usize) -> String {
+        format!(
+            "{}@{}-{}",
+            self.val().rel(base),
+            self.start() as i64 - base as i64,
+            self.end() as i64 - base as i64
+        )
+    }
+}
+impl<A: Rel, B: Rel> Rel for (A, B) {
+    fn rel(&self, base: usize) -> String { format!("({},{})", self.0.rel(base), self.1.rel(base)) }
+}
+impl<A: Rel, B: Rel> Rel for Alt<A, B> {
+    fn rel(&self, base: usize) -> String {
+        match self {
+            Alt::Left(a) => format!("L{}", a.rel(base)),
+            Alt::Right(b) => format!("R{}", b.rel(base)),
+        }
+    }
+}
+impl<A: Rel> Rel for Vec<A> {
+    fn rel(&self, base: usize) -> String {
+        format!("[{}]", self.iter().map(|a| a.rel(base)).collect::<Vec<_>>().join(";"))
+    }
+}
+
+impl Rel for PDFObjT {
+    fn rel(&self, _: usize) -> String { obj_sexp(self) }
+}
+
+// `parse_pdf_obj` (fresh context of depth bound 3 per call) as a ParsleyParser, so that it can be a
+// component of the combinators: a hand-written parser of the crate that does NOT put the cursor back
+// when it fails - it makes the restores done by the combinators themselves observable
+struct ObjP;
+impl ParsleyParser for ObjP {
+    type T = LocatedVal<PDFObjT>;
+
+    fn parse(&mut self, buf: &mut dyn ParseBufferT) -> ParseResult<Self::T> {
+        let mut ctxt = PDFObjContext::new(3);
+        parse_pdf_obj(&mut ctxt, buf)
+    }
+}
+
+fn conv_rel<T: Rel + PartialEq>(r: ParseResult<LocatedVal<T>>, pb: &ParseBuffer) -> Out {
+    match r {
+        Ok(v) => Out {
+            ok:     Some((v.start(), v.end(), v.val().rel(v.start()))),
+            err:    None,
+            cursor: pb.get_cursor(),
+        },
+        Err(e) => Out {
+            ok:     None,
+            err:    Some(errk(e.val())),
+            cursor: pb.get_cursor(),
+        },
+    }
+}
+
+fn chr(c: char) -> AsciiChar { AsciiChar::new_guarded(Box::new(move |x: &char| *x == c)) }
+
+// the composites of prim_combinators.rs::test_combined / test_not, two mixed ones over binary and token
+// parsers, and two look-ahead ones (lk...)
+fn run_cmb(name: &str, pb: &mut ParseBuffer) -> Option<Out> {
+    let (mut a, mut b, mut a2, mut b2) = (chr('A'), chr('B'), chr('A'), chr('B'));
+    let o = match name {
+        "seqAB" => conv_rel(Sequence::new(&mut a, &mut b).parse(pb), pb),
+        "altAB" => conv_rel(Alternate::new(&mut a, &mut b).parse(pb), pb),
+        "starA" => conv_rel(Star::new(&mut a).parse(pb), pb),
+        "starAny" => {
+            let mut any = AsciiChar::new();
+            conv_rel(Star::new(&mut any).parse(pb), pb)
+        },
+        "notAltAB" => {
+            let mut ab = Alternate::new(&mut a, &mut b);
+            conv_rel(Not::new(&mut ab).parse(pb), pb)
+        },
+        "starSeqAB" => {
+            let mut ab = Sequence::new(&mut a, &mut b);
+            conv_rel(Star::new(&mut ab).parse(pb), pb)
+        },
+        "starAltAB" => {
+            let mut ab = Alternate::new(&mut a, &mut b);
+            conv_rel(Star::new(&mut ab).parse(pb), pb)
+        },
+        "seqStarAStarB" => {
+            let mut sa = Star::new(&mut a);
+            let mut sb = Star::new(&mut b);
+            conv_rel(Sequence::new(&mut sa, &mut sb).parse(pb), pb)
+        },
+        "altStarAStarB" => {
+            let mut sa = Star::new(&mut a);
+            let mut sb = Star::new(&mut b);
+            conv_rel(Alternate::new(&mut sa, &mut sb).parse(pb), pb)
+        },
+        "altSeqABSeqBA" => {
+            let mut ab = Sequence::new(&mut a, &mut b);
+            let mut ba = Sequence::new(&mut b2, &mut a2);
+            conv_rel(Alternate::new(&mut ab, &mut ba).parse(pb), pb)
+        },
+        "seqAltABAltBA" => {
+            let mut ab = Alternate::new(&mut a, &mut b);
+            let mut ba = Alternate::new(&mut b2, &mut a2);
+            conv_rel(Sequence::new(&mut ab, &mut ba).parse(pb), pb)
+        },
+        "starU16Bv2" => {
+            let mut u = UInt16P::new(Endian::Big);
+            let mut v = ByteVecP::new(2);
+            let mut rec = Sequence::new(&mut u, &mut v);
+            conv_rel(Star::new(&mut rec).parse(pb), pb)
+        },
+        "seqIntWsn1" => {
+            let mut i = IntegerP;
+            let mut w = WhitespaceNoEOL::new(true);
+            conv_rel(Sequence::new(&mut i, &mut w).parse(pb), pb)
+        },
+        "lkAltObjAny" => {
+            let mut o = ObjP;
+            let mut any = AsciiChar::new();
+            conv_rel(Alternate::new(&mut o, &mut any).parse(pb), pb)
+        },
+        "seqObjA" => {
+            let mut o = ObjP;
+            conv_rel(Sequence::new(&mut o, &mut a).parse(pb), pb)
+        },
+        "seqAObj" => {
+            let mut o = ObjP;
+            conv_rel(Sequence::new(&mut a, &mut o).parse(pb), pb)
+        },
+        "notObj" => {
+            let mut o = ObjP;
+            conv_rel(Not::new(&mut o).parse(pb), pb)
+        },
+        "starObj" => {
+            let mut o = ObjP;
+            conv_rel(Star::new(&mut o).parse(pb), pb)
+        },
+        "lkNotNotB" => {
+            let mut nb = Not::new(&mut b);
+            conv_rel(Not::new(&mut nb).parse(pb), pb)
+        },
+        "lkAltSeqANotBA" => {
+            let mut nb = Not::new(&mut b);
+            let mut anb = Sequence::new(&mut a, &mut nb);
+            conv_rel(Alternate::new(&mut anb, &mut a2).parse(pb), pb)
+        },
+        _ => return None,
+    };
+    Some(o)
 }
 
 fn endian(p: &str) -> Endian { if p.ends_with("le") { Endian::Little } else { Endian::Big } }
@@ -86,6 +259,13 @@ fn run_parser(p: &str, buf: &[u8], pos: usize) -> Option<Out> {
         "u16be" | "u16le" => conv(UInt16P::new(endian(p)).parse(&mut pb), &pb, &|v: &u16| v.to_string()),
         "u32be" | "u32le" => conv(UInt32P::new(endian(p)).parse(&mut pb), &pb, &|v: &u32| v.to_string()),
         "u64be" | "u64le" => conv(UInt64P::new(endian(p)).parse(&mut pb), &pb, &|v: &u64| v.to_string()),
+        "i8" => conv(Int8P.parse(&mut pb), &pb, &|v: &i8| v.to_string()),
+        "i32be" | "i32le" => conv(Int32P::new(endian(p)).parse(&mut pb), &pb, &|v: &i32| v.to_string()),
+        "chr" => {
+            let mut c = if parts[1] == "A" { chr('A') } else { AsciiChar::new() };
+            conv_rel(c.parse(&mut pb), &pb)
+        },
+        "cmb" => return run_cmb(parts[1], &mut pb),
         "i16be" | "i16le" => conv(Int16P::new(endian(p)).parse(&mut pb), &pb, &|v: &i16| v.to_string()),
         "i64be" | "i64le" => conv(Int64P::new(endian(p)).parse(&mut pb), &pb, &|v: &i64| v.to_string()),
         "bv" => {
